@@ -158,3 +158,36 @@ def directed_programs():
         ("fixed-memo-newobj-twice", (g("vp_sink", "K"), A.EMPTY_TUPLE, A.NEWOBJ, A.BINPUT(0), A.EMPTY_DICT, A.SBU("a"),
                                       A.BININT1(1), A.SETITEM, A.BUILD, A.BINGET(0), A.TUPLE2, A.STOP)),
     ]
+
+
+def torch_pickles(ctx, n):
+    """Real-world shaped pickles: data.pkl of torch.save zip files and the stacked pickles of legacy
+    torch files (persistent ids that are tuples, torch rebuild helpers, OrderedDict state)."""
+    import io
+    import pickletools
+    import zipfile
+    import torch
+    from vp import torchfiles
+    rng = asm.rng_for(ctx.seed, "torchpk")
+    for label, obj in torchfiles.models(torch, rng, n):
+        buf = io.BytesIO()
+        torch.save(obj, buf)
+        with zipfile.ZipFile(io.BytesIO(buf.getvalue())) as z:
+            for name in z.namelist():
+                if name.endswith("data.pkl"):
+                    yield "torch-zip-" + label, z.read(name)
+        buf = io.BytesIO()
+        torch.save(obj, buf, _use_new_zipfile_serialization=False)
+        data, pos, k = buf.getvalue(), 0, 0
+        while pos < len(data) and k < 6:
+            end = None
+            try:
+                for op, arg, p in pickletools.genops(data[pos:]):
+                    if op.name == "STOP":
+                        end = pos + p + 1
+            except Exception:
+                break
+            if end is None:
+                break
+            yield f"torch-legacy{k}-" + label, data[pos:end]
+            pos, k = end, k + 1
